@@ -188,5 +188,66 @@ proof fn lemma_show_is_last_update(ops: Seq<Op>)
     ensures store_after(ops, None) == last_update(ops)
     decreases ops.len()
 { if ops.len() > 0 { lemma_show_is_last_update(ops.drop_last()); } }
+
+// ---- handle_analyze: what `analyze` is told about the checkpoint (C19) ----
+//!type src/app/analyze.rs HandleAnalyzeInput
+pub struct HandleAnalyzeInput<'a> {
+    pub git_opts: git::GitOptions<'a>,
+    pub analyze_input: AnalyzeInput,
+}
+//!end
+pub struct AnalyzeInput { pub x: u8 }
+pub struct AnalyzeOutput { pub ghost all_targets: bool, pub checkpointed: bool }
+pub mod core_ix {
+    use vstd::prelude::*;
+    use super::*;
+    pub struct Index { pub x: u8 }
+    impl Index { #[verifier::external_body] pub fn new(cfg: &Config, visible: &HashSet<&String>, work_path: &path::Path) -> (r: Result<Index, MonorailError>) { unimplemented!() } }
+}
+impl Config { #[verifier::external_body] pub fn get_target_path_set(&self) -> HashSet<&String> { unimplemented!() } }
+// contract of `analyze` as used here (proved in unit analyze): without a change list the answer is checkpointed=false with every
+// configured target; with one it is checkpointed=true
+#[verifier::external_body] pub fn analyze(input: &AnalyzeInput, index: &mut core_ix::Index, changes: Option<Vec<Change>>) -> (r: Result<AnalyzeOutput, MonorailError>)
+    ensures r matches Ok(o) ==> o.checkpointed == (changes is Some) && (changes is None ==> o.all_targets)
+{ unimplemented!() }
+//!fn src/app/analyze.rs handle_analyze rules=R1,R10,R12 props=C19
+pub(crate) async fn handle_analyze<'a>(
+    cfg: &'a core::Config,
+    input: &HandleAnalyzeInput<'a>,
+    work_path: &'a path::Path,
+ Tracked(w): Tracked<&mut World>) -> ⟦(res: ⟧Result<AnalyzeOutput, MonorailError>⟦)⟧
+@    ensures
+@        // C19: without a checkpoint (never written, deleted, or removed with the output directory) `analyze` reports checkpointed=false
+@        // together with every configured target - whatever interval or other options were given; with one, checkpointed=true
+@        res matches Ok(o) ==> (old(w).cp_file is None ==> !o.checkpointed && o.all_targets), // [C19]
+@        res matches Ok(o) ==> (old(w).cp_file is Some ==> o.checkpointed), // [C19]
+@        final(w).cp_file == old(w).cp_file,
+{
+    let changes = match cfg.change_provider.r#use {
+        ChangeProviderKind::Git => match cfg.change_provider.r#use {
+            ChangeProviderKind::Git => {
+                let tracking = tracking::Table::new(&cfg.get_tracking_path(work_path))?;
+                let checkpoint = match tracking.open_checkpoint(Tracked(w)) {
+                    Ok(checkpoint) => Some(checkpoint),
+                    Err(MonorailError::TrackingCheckpointNotFound(_)) => None,
+                    Err(e) => {
+                        return Err(e);
+                    }
+                };
+                // Only check the change provider if a checkpoint is informing us
+                match checkpoint {
+                    Some(checkpoint) => Some(
+                        git::get_git_all_changes(&input.git_opts, &checkpoint, work_path).await?,
+                    ),
+                    None => None,
+                }
+            }
+        },
+    };
+    let mut index = core_ix::Index::new(cfg, &cfg.get_target_path_set(), work_path)?;
+
+    analyze(&input.analyze_input, &mut index, changes)
+}
+//!end
 } // verus!
 fn main() {}
